@@ -13,6 +13,7 @@ from vlib import build, runs, slevel, trace, model, sexp
 CODES = {"mkdir": "M", "create-meta": "c", "create-data": "C", "write-meta": "w", "write-data": "W", "fsync-meta": "s", "fsync-data": "S",
          "fsync-dir": "D", "rename": "R", "fsync-group": "G", "rm-temp": "t", "rm-other": "O", "report": "K"}
 SHAPE = re.compile(r"^t*McC[wW]*s[W]*SDRGO?K$")
+SHAPE_SOFT = re.compile(r"^t*McC[wW]*s[W]*SDRGO?$")
 
 
 def abstract(ops, group, names):
@@ -91,6 +92,11 @@ def scenario(ctx, rng, kind, exe=None, fault=None, delay=None):
         elif kind == "rotate":
             H = runs.History(ctx, sb, rng, "C12", 1, 1)
             pre = 2
+        elif kind in ("softerr-item", "softerr-hook"):
+            # a run with an error that does not stop it (a configured item that does not exist; a failing after hook): it exits non-zero and
+            # still publishes - what it publishes must be as durable as any other backup
+            H = runs.History(ctx, sb, rng, "C12", 3, 4)
+            pre = 1
         else:   # abandoned temporary in the group that is reused
             H = runs.History(ctx, sb, rng, "C12", 3, 4)
             pre = 1
@@ -108,6 +114,14 @@ def scenario(ctx, rng, kind, exe=None, fault=None, delay=None):
         for _ in range(rng.randrange(0, 3)):
             H.w.edit()
         H.advance()
+        if kind == "softerr-item":
+            H.w.items.append("item-that-does-not-exist")
+            H.w.filters.append(None)
+            H.w.write_config()
+        elif kind == "softerr-hook":
+            cfg = open(sb.cfg).read().replace("        - path: %s" % os.path.join(H.w.src, "item0"),
+                                              "        - path: %s\n          after: 'exit 3'" % os.path.join(H.w.src, "item0"))
+            open(sb.cfg, "w").write(cfg)
         before, _ = runs.listing(H.dec)
         name = H.name_of_now()
         tf = sb.path("trace.txt")
@@ -166,8 +180,9 @@ def scenario(ctx, rng, kind, exe=None, fault=None, delay=None):
                               {"case": desc, "ops": wire, "rejected_at": k, "codes": codes, "output": out[-500:]})
             ctx.traces += 1
             return
-        if rc != 0 or not groups_with:
-            ctx.violation("trace", "scenario %s: the run did not publish (exit %d)" % (kind, rc), {"output": out[-600:]}, failing_input=False)
+        if (rc != 0 and not kind.startswith("softerr")) or not groups_with or (kind.startswith("softerr") and rc == 0):
+            ctx.violation("trace", "scenario %s: the run did not publish%s (exit %d)" % (kind, " with a non-zero exit status" if kind.startswith("softerr") else "", rc),
+                          {"output": out[-600:]}, failing_input=False)
             return
         group = groups_with[0]
         names = {}
@@ -189,7 +204,8 @@ def scenario(ctx, rng, kind, exe=None, fault=None, delay=None):
                     % (k, wire[k] if 0 <= k < len(wire) else "?", short))
             ctx.violation("durable", what, {"case": desc, "ops": wire, "rejected_at": k, "codes": codes})
             return
-        if not SHAPE.match(codes):
+        # a run that met a non-fatal error publishes in the same way but ends without the success report (K)
+        if not (SHAPE_SOFT if kind.startswith("softerr") else SHAPE).match(codes):
             ctx.violation("trace-shape", "correspondence trace-shape no longer checks: projected operations %s do not have the shape t* M c C (w|W)* s W* S D R G O? K "
                           "of the model's vsb_run (still accepted by the durability checker)" % short, {"case": desc, "codes": codes}, failing_input=False)
         ctx.traces += 1
@@ -201,7 +217,7 @@ def run(ctx):
     build.ensure_vsb()
     build.ensure_vsbh()
     reps = 8 if thorough else 2
-    ctx.rule = ("4 scenarios (first backup in an empty storage; append to the newest group; rotation with removal of the old group, limits 1x1; "
+    ctx.rule = ("6 scenarios (a run with a non-fatal error - missing item, failing hook - that still publishes; first backup in an empty storage; append to the newest group; rotation with removal of the old group, limits 1x1; "
                 "reuse of a group holding an abandoned temporary) x %d generated trees each%s; plus runs in which one storage call fails (each of the four "
                 "fsyncs, the rename%s; located by ordinal in a reference run on a copy of the storage, injected with strace) - a failed call flushes "
                 "nothing and what the run does afterwards must still pass the checker; every run is traced and its storage-side calls "
@@ -211,7 +227,7 @@ def run(ctx):
     if thorough:
         exes.append(build.ensure_vsb(release=True))
     for exe in exes:
-        for kind in ("first", "append", "rotate", "temp"):
+        for kind in ("first", "append", "rotate", "temp", "softerr-item", "softerr-hook"):
             for _ in range(reps):
                 scenario(ctx, rng, kind, exe)
                 if len(ctx.violations) >= 3:
